@@ -8,7 +8,7 @@ import RpgpModel.Kdf
 Answers: `ok:<plan>` (a rendered `PExpr`, see `RpgpModel/Plan.lean`), `ok:<hex>`, `err`.
 -/
 namespace Rpgp.Ops.C12
-open Rpgp
+open Rpgp Rpgp.Sym
 
 /-- S2K specifier from `typ= hash= salt= count= t= p= m=` -/
 def spec (a : Args) : Option S2k.Spec := do
@@ -74,7 +74,7 @@ def handle (op : String) (a : Args) : Option String :=
     pure (planAns (Skesk.plan6 (← flag a "enc") (← a.nat "sym") (← a.nat "aead") (← spec a) (← a.bytes "pw")
       (← a.bytes "sk") (← a.bytes "iv")))
   | "seckey.cfb" => do
-    pure (planAns (SecKey.cfbPlan (← flag a "enc") (← a.nat "sym") (← spec a) (← a.bytes "pw") (← a.bytes "iv")
+    pure (planAns (SecKey.cfbPlan (← flag a "enc") (← a.nat "ver") (← a.nat "sym") (← spec a) (← a.bytes "pw") (← a.bytes "iv")
       (← a.bytes "raw")))
   | "seckey.aead" => do
     pure (planAns (SecKey.aeadPlan (← flag a "enc") (← a.nat "sym") (← a.nat "aead") (← spec a) (← a.bytes "pw")
